@@ -305,3 +305,16 @@ package fasthttp
 //@   end
 //@   ensures[no-answer-only-for-an-unqueued-overflow] !answered && released == 1 ==> err == ErrPipelineOverflow && !queued
 //@   ensures[success-is-an-answered-request] err == nil ==> queued && answered
+
+// hostnameFromURLString (C20): the host that anchors the trust decision for a whole redirect chain. What is handed to
+// the host/port splitter is the authority with its userinfo removed the way URI.parse removes it -- everything up to
+// the *last* '@' (an '@' may occur inside the userinfo): no '@' is left in it and it is the tail of the authority.
+//@ func hostnameFromURLString results r
+//@   property C20
+//@   mode skeleton
+//@   on call splitHostURI -> sc, hs, p:
+//@     nohavoc
+//@   on call hostnameFromHostPortBytes(h) -> x:
+//@     nohavoc
+//@     requires[userinfo-removed-up-to-the-last-at] forall j in [0, len(h)): h[j] != '@'
+//@   end
